@@ -196,6 +196,9 @@ func (c *CheckCtx) runModeT(pkgRels []string, cfgs []*HarnessCfg) {
 				ccfg.Concrete = v.Vec
 				ccfg.Cross = ""
 				cres := runHarness(in, &ccfg, 1)
+				if os.Getenv("VERIF_DEBUG") != "" {
+					fmt.Fprintf(os.Stderr, "engine replay of %s: ends=%v violations=%d incon=%v\n", v.Label, cres.Ends, len(cres.Violations), cres.Inconclusive)
+				}
 				for _, cv := range cres.Violations {
 					if cv.Label == v.Label {
 						st, lbl = "violated", v.Label+" (confirmed by concrete re-execution of the SSA; native run: "+st+")"
